@@ -26,6 +26,15 @@ def slice_for(t):
     return c03_slice(t)
 
 
+MACRO_GENERATED = {"impl_assign_all_range_fxn", "impl_assign_range_all_fxn"}   # `fn $name` inside a macro: not extractable
+
+
+def call(fxn):
+    if fxn in MACRO_GENERATED:
+        return "%s(sink, source, ixarr.to_vec())" % fxn
+    return "vp_%s(sink, source, &ixarr[..])" % fxn
+
+
 def gen(t, sform, shape, forms, lens, src_kind, domain, tier):
     """src_kind: 'scalar' or 'vector' (1-D V/B forms only: i-th addressed element := i-th source element)"""
     R, C = shape
@@ -66,7 +75,8 @@ def gen(t, sform, shape, forms, lens, src_kind, domain, tier):
         b.append("kani::assume(%s);" % oks)
         b += exp
         b.append("kani::cover!(true, \"VP:reached-call\");")
-        b.append("match %s(sink, source, vec![%s]) {" % (fxn, ivs))
+        b.append("let ixarr = [%s];" % ivs)
+        b.append("match %s {" % call(fxn))
         b.append("  Err(e) => { forget(e); assert!(false, \"VP:rejected-valid-assignment\"); }")
         b.append("  Ok(f) => {")
         b.append("    f.solve();")
@@ -80,7 +90,8 @@ def gen(t, sform, shape, forms, lens, src_kind, domain, tier):
     else:
         b.append("kani::assume(!(%s));" % oks)
         b.append("kani::cover!(true, \"VP:reached-call\");")
-        b.append("match %s(sink, source, vec![%s]) {" % (fxn, ivs))
+        b.append("let ixarr = [%s];" % ivs)
+        b.append("match %s {" % call(fxn))
         b.append("  Err(e) => { kani::cover!(true, \"VP:rejected-err\"); forget(e); { let cur = sc.borrow(); assert!(%s, \"VP:sink-changed-by-rejected-assignment\"); } }" % unchanged)
         b.append("  Ok(f) => {")
         b.append("    f.solve();")
@@ -88,7 +99,7 @@ def gen(t, sform, shape, forms, lens, src_kind, domain, tier):
         b.append("    forget(f);")
         b.append("  }")
         b.append("}")
-    b.append("forget(sc);")
+    b.append("forget(ixarr); forget(sc);")
     what = "x[%s] = %s" % (",".join({"S": "i", "V": "[i..]", "B": "mask", "A": ":"}[f] + (str(n) if f in "VB" else "") for f, n in zip(forms, lens)),
                           "scalar" if src_kind == "scalar" else "vector")
     h = H(name + "_" + domain, "    " + "\n    ".join(x for x in b if x), WHERE, domain=domain,
@@ -102,7 +113,11 @@ def gen(t, sform, shape, forms, lens, src_kind, domain, tier):
                  % (R, C, ",".join(str(n) for f, n in zip(forms, lens) if f in "VB") or "-"),
           unwind=max(N, MAXSEL, max(lens)) + 3, tier=tier, group=fxn, solver="kissat")
     h.slice = slice_for(t)
+    h.stub_loc = True      # impl_assign_fxn! starts from an Err(..).with_compiler_loc() value on every path
+    if fxn in MACRO_GENERATED:
+        h.tier = "thorough"
     h.heavy = True
+    h.stub_kind = True
     return h
 
 
@@ -137,8 +152,16 @@ def plan(tier, seed):
     for sform, shape in (("RD", (1, 3)), ("MD", (2, 2))):
         hs.append(gen("u8", sform, shape, ("S",), (0,), "scalar", "accept", "thorough"))
         hs.append(gen("i64", sform, shape, ("V",), (2,), "scalar", "accept", "thorough"))
+    src = read_repo("src/interpreter/src/stdlib/assign/matrix.rs")
+    prelude, extracted = "", {}
+    for fx in sorted(set(list(DISPATCH_1D.values()) + list(DISPATCH_2D.values())) - MACRO_GENERATED):
+        t_, h_ = extract_dispatch_fn(src, fx, "src/interpreter/src/stdlib/assign/matrix.rs")
+        prelude += t_
+        extracted[fx] = h_
     return {
         "harnesses": hs,
+        "incrate_prelude": {WHERE: prelude},
+        "extracted": extracted,
         "explanation": "Kani/CBMC over the real assign dispatch functions and the Assign*/Set* kernels they build (harness copy of "
                        "mech-interpreter, per-kind slice, kissat): one assignment step from a fully symbolic sink pre-state, symbolic source and "
                        "symbolic indices; post-state compared with a reference model element by element",
